@@ -3,6 +3,7 @@ package props
 import (
 	"fmt"
 	"sort"
+	"strings"
 
 	"github.com/brocaar/lorawan"
 	"github.com/brocaar/lorawan/band"
@@ -175,7 +176,8 @@ var c14Block16 = []uint16{0xFFFF, 0x0000, 0x00FF, 0xFF00, 0x0001, 0xFFFE, 0x5555
 var c14Block8 = []uint16{0xFF, 0x00, 0x01, 0xFE}
 
 func runC14(r *engine.Run) {
-	r.Rule = "E2 + E1. Dynamic-channel bands (11): network states by explicit-state BFS over AddChannel(fresh,CFList range), AddChannel(fresh,6..6), AddChannel(0: placeholder) (at most 3 additions quick / 4 thorough) and Toggle(i) for every channel until the state set closes; in every distinct state every device channel subset of {0..n} (n = one index beyond the plan) is planned, applied by the independent device model (mc/spec/region.go ApplyLinkADR) and by the library's apply function. Full 16-channel plan (3/2 standard + custom) x 6 network patterns x all 2^16 device subsets. Fixed plans (US915, AU915: 72; CN470: 96): network set and device set each range over the product of per-block patterns (16-channel blocks: quick 4 / thorough 7 patterns, CN470 with its six blocks 3 / 5; 500 kHz block: 4 patterns), network sets produced by real Disable/Enable calls in ascending and descending order. Obligations: result of applying = network-enabled channels the device can know; every payload encodable; #payloads <= ceil(plan/16)+1; nothing when the device matches; no panic. Non-trivial: a (network, device) pair for which the planner returned and the result was compared."
+	r.Rule = "E2 + E1. Dynamic-channel bands (11): network states by explicit-state BFS over AddChannel(fresh,CFList range), AddChannel(fresh,6..6), AddChannel(0: placeholder), AddChannel(fresh, inverted DR range: accepted or refused - a refused call changes nothing) (at most 3 additions quick / 4 thorough) and Toggle(i) for every channel until the state set closes; in every distinct state every device channel subset of {0..n} (n = one index beyond the plan) is planned, applied by the independent device model (mc/spec/region.go ApplyLinkADR) and by the library's apply function. Full 16-channel plan (3/2 standard + custom) x 6 network patterns x all 2^16 device subsets. Fixed plans (US915, AU915: 72; CN470: 96): network set and device set each range over the product of per-block patterns (16-channel blocks: quick 4 / thorough 7 patterns, CN470 with its six blocks 3 / 5; 500 kHz block: 4 patterns), network sets produced by real Disable/Enable calls in ascending and descending order. Obligations: result of applying = network-enabled channels the device can know; every payload encodable; #payloads <= ceil(plan/16)+1; nothing when the device matches; no panic. Non-trivial: a (network, device) pair for which the planner returned and the result was compared."
+	bandConstructionStability(r)
 	bandGetterHistory(r)
 	r.Rule += " E3 (schedules): one band object shared by three threads that plan LinkADRReq payloads for three devices concurrently (CN470 / US915 / EU868 with custom channels), every interleaving of the probes on receiver fields some method writes and of synchronisation operations (preemption-bounded and, with state-key pruning, unbounded); each plan must equal the plan made alone, no data race, no deadlock."
 	mergeSchedSummary(r, "C14")
@@ -224,6 +226,27 @@ func runC14(r *engine.Run) {
 				return "ok"
 			}},
 		}
+		// an addition the band may refuse (inverted data-rate range): "any history of adding ..." includes
+		// refused calls, which leave the plan as it was
+		ops = append(ops, engine.XOp{Name: "Add(inverted range)", Do: func(obj interface{}) string {
+			b := obj.(band.Band)
+			n := len(b.GetUplinkChannelIndices())
+			if n-nStd >= maxAdds {
+				return "skip"
+			}
+			lo, hi := init.CFListMaxDR, init.CFListMinDR
+			if lo <= hi {
+				lo, hi = 1, 0
+			}
+			before := deepPrint(snapOf(b))
+			if err := b.AddChannel(base+10000000+uint32(n)*200000, lo, hi); err != nil {
+				if after := deepPrint(snapOf(b)); after != before {
+					return "refused-call-changed-the-plan: " + firstDiff(before, after)
+				}
+				return "refused"
+			}
+			return "ok"
+		}})
 		for i := 0; i < nStd+maxAdds; i++ {
 			i := i
 			ops = append(ops, engine.XOp{Name: fmt.Sprintf("Toggle(%d)", i), Do: func(obj interface{}) string {
@@ -245,6 +268,11 @@ func runC14(r *engine.Run) {
 			Snap:  func(obj interface{}) string { return chanSnap(snapOf(obj.(band.Band))) },
 			Warm:  bandWarm,
 			Depth: 16,
+		}
+		x.Check = func(c *engine.Case, obj interface{}, path []int, last string) {
+			if strings.HasPrefix(last, "refused-call-changed-the-plan") {
+				c.Fail("history/"+regionOf(name).Name+"/refused-addition-changes-the-plan", fmt.Sprintf("%v after %v: AddChannel returned an error and %s", name, x.PathNames(path), last), nil)
+			}
 		}
 		x.CheckState = func(c *engine.Case, obj interface{}, path []int) {
 			b := obj.(band.Band)
